@@ -31,9 +31,10 @@ type Program struct {
 	ufs      map[string]ufDecl
 	srcLines map[string][]string
 
-	allFuncs  []*ssa.Function // the functions of package gmars
-	fnValues  []*ssa.Function // those whose value is taken (candidates of dynamic calls)
-	fnValOnce sync.Once
+	allFuncs    []*ssa.Function // the functions of package gmars
+	fnValues    []*ssa.Function // those whose value is taken (candidates of dynamic calls)
+	fnValOnce   sync.Once
+	closureSigs []*types.Signature // signatures of the closures created in the package
 }
 
 func funcName(f *ssa.Function) string {
@@ -298,22 +299,22 @@ type Val struct {
 // ---------- obligations ----------
 
 type Obl struct {
-	ID    int
-	Name  string
-	Kind  string
-	Tags  []string
-	Func  string
-	Text  string
-	Pos   string
+	ID       int
+	Name     string
+	Kind     string
+	Tags     []string
+	Func     string
+	Text     string
+	Pos      string
 	obSym    string
 	okPre    string
 	terminal bool
 	// results
-	Result  string
-	Solver  string
-	TimeS   float64
-	Model   string
-	Case    string
+	Result string
+	Solver string
+	TimeS  float64
+	Model  string
+	Case   string
 }
 
 // ---------- encoder ----------
@@ -341,50 +342,50 @@ type Enc struct {
 	inQuant int
 	usedUF  map[string]bool
 
-	heapInits map[string]Term
-	extraDecls map[string]string
-	keepDefs   bool
-	rangeMaps  map[*ssa.Range]*types.Map
-	racRunes   []int64
-	vals      map[ssa.Value]Val
-	outState  map[*ssa.BasicBlock]*State
-	edgeGuard map[[2]int]Term
-	blockG    map[*ssa.BasicBlock]Term
-	init      *State
-	obls      []*Obl
-	okCur     string
-	oblCtr    map[string]int
-	loops     map[*ssa.BasicBlock]*loopInfo
-	backEdge  map[[2]int]bool
-	debugVals map[string][]ssa.Value
-	params    map[string]CVal
-	warnings  []string
-	mulSeen   map[string]bool
-	curGuard  Term
-	curState  *State
-	curBlock  *ssa.BasicBlock
-	modRefs   []modRef // evaluated modifies targets (in the pre-state)
-	panicTags []string
-	mode      string // "body" or "lemma"
-	checked   map[string]*ssa.BasicBlock
-	ufArith   bool
-	terminal  bool
-	known     map[string]string // expanded term -> numeral, fixed by the split case
-	defs      map[string]string
-	expanded  map[string]string
-	caseVals  []int64 // values of the split expressions in this case (nil = no specialisation)
-	caseRest  bool    // the remainder case: some split expression outside its range
-	caseLabel string
-	phase     int // 0: no cut; 1: up to the cut; 2: from the cut
-	cutInstr  ssa.Instruction
-	quiet     bool // phase 2 before the cut: bind values, emit no obligations / assumptions
-	splits    []SplitSpec
-	scratchLocals map[*ssa.Alloc]Term
-	specVals      map[string]CVal
-	retGuards     []Term
-	boxDecls      map[string]string // box function name -> argument sort
-	clauseSeen    map[string]bool   // iteration / exit clauses: evaluated on at least one path?
-	defaultExterns map[string]bool  // library functions used through the default assumed contract
+	heapInits      map[string]Term
+	extraDecls     map[string]string
+	keepDefs       bool
+	rangeMaps      map[*ssa.Range]*types.Map
+	racRunes       []int64
+	vals           map[ssa.Value]Val
+	outState       map[*ssa.BasicBlock]*State
+	edgeGuard      map[[2]int]Term
+	blockG         map[*ssa.BasicBlock]Term
+	init           *State
+	obls           []*Obl
+	okCur          string
+	oblCtr         map[string]int
+	loops          map[*ssa.BasicBlock]*loopInfo
+	backEdge       map[[2]int]bool
+	debugVals      map[string][]ssa.Value
+	params         map[string]CVal
+	warnings       []string
+	mulSeen        map[string]bool
+	curGuard       Term
+	curState       *State
+	curBlock       *ssa.BasicBlock
+	modRefs        []modRef // evaluated modifies targets (in the pre-state)
+	panicTags      []string
+	mode           string // "body" or "lemma"
+	checked        map[string]*ssa.BasicBlock
+	ufArith        bool
+	terminal       bool
+	known          map[string]string // expanded term -> numeral, fixed by the split case
+	defs           map[string]string
+	expanded       map[string]string
+	caseVals       []int64 // values of the split expressions in this case (nil = no specialisation)
+	caseRest       bool    // the remainder case: some split expression outside its range
+	caseLabel      string
+	phase          int // 0: no cut; 1: up to the cut; 2: from the cut
+	cutInstr       ssa.Instruction
+	quiet          bool // phase 2 before the cut: bind values, emit no obligations / assumptions
+	splits         []SplitSpec
+	scratchLocals  map[*ssa.Alloc]Term
+	specVals       map[string]CVal
+	retGuards      []Term
+	boxDecls       map[string]string // box function name -> argument sort
+	clauseSeen     map[string]bool   // iteration / exit clauses: evaluated on at least one path?
+	defaultExterns map[string]bool   // library functions used through the default assumed contract
 	usedSend       bool
 	staticSelf     map[string]types.Type // parameter types of the interface method being called (for loop write sets)
 }
@@ -395,7 +396,7 @@ type modRef struct {
 	heapSort string
 	all      bool
 	elems    bool
-	ref      Term // object ref / array ref
+	ref      Term  // object ref / array ref
 	idx      *Term // single element (elems targets only)
 	wild     bool
 	wildCond func(r Term) Term
